@@ -17,6 +17,8 @@ structure TCmdG where
   parent : Option Nat := none
   interspersed : Bool := true
   noFlagParse : Bool := false
+  /-- `FParseErrWhitelist.UnknownFlags`: the program tolerates unknown flags -/
+  whitelist : Bool := false
   /-- flags defined on this command; `true` = persistent -/
   flags : List (PflagG.PFlagG × Bool) := []
   deriving Repr, Inhabited
@@ -107,7 +109,7 @@ def traverseSlotG (t : TTreeG) : Nat → Nat → List Str → Str → Slot
       match loopG t c cs fs args {} with
       | .descend k rest inArgs =>
         if cs.noFlagParse then traverseSlotG t fuel k rest value
-        else match PflagG.parseG pfs cs.interspersed inArgs with
+        else match PflagG.parseG pfs cs.interspersed inArgs cs.whitelist with
           | .error _ => .message
           | .ok _ => traverseSlotG t fuel k rest value
       | .done st _ =>
@@ -120,7 +122,7 @@ def traverseSlotG (t : TTreeG) : Nat → Nat → List Str → Str → Slot
             else seriesFix fs flagOk st.inArgs value
           | none => seriesFix fs flagOk st.inArgs value
         let parsed : Except Pflag.Err Pflag.Parsed :=
-          if cs.noFlagParse then .ok { args := st.inArgs } else PflagG.parseG pfs cs.interspersed toParse
+          if cs.noFlagParse then .ok { args := st.inArgs } else PflagG.parseG pfs cs.interspersed toParse cs.whitelist
         match parsed with
         | .error _ => .message
         | .ok p =>
